@@ -525,6 +525,8 @@ impl LoopDetector {
 struct Context<'input> {
     opt: ParsingOptions,
     namespace_start_idx: usize,
+    // The current start tag has declared `xmlns:xml` (a declaration that is not stored).
+    xml_prefix_declared: bool,
     current_attributes: Vec<TempAttributeData<'input>>,
     awaiting_subtree: Vec<NodeId>,
     parent_prefixes: Vec<&'input str>,
@@ -665,6 +667,7 @@ fn parse(text: &str, opt: ParsingOptions) -> Result<Document> {
     let mut ctx = Context {
         opt,
         namespace_start_idx: 1,
+        xml_prefix_declared: false,
         current_attributes: Vec::with_capacity(16),
         entities: Vec::new(),
         awaiting_subtree: Vec::new(),
@@ -804,6 +807,7 @@ fn process_attribute<'input>(
             .doc
             .namespaces
             .exists(ctx.namespace_start_idx, Some(local))
+            || (is_xml_ns_uri && ctx.xml_prefix_declared)
         {
             let pos = ctx.doc.text_pos_at(range.start);
             return Err(Error::DuplicatedNamespace(local.to_string(), pos));
@@ -812,6 +816,8 @@ fn process_attribute<'input>(
         // Xml namespace should not be added to the namespaces.
         if !is_xml_ns_uri {
             ctx.doc.namespaces.push_ns(Some(local), value)?;
+        } else {
+            ctx.xml_prefix_declared = true;
         }
     } else if prefix.is_empty() && local == XMLNS {
         // The xml namespace MUST NOT be declared as the default namespace.
@@ -873,6 +879,7 @@ fn process_element<'input>(
 
     let namespaces = ctx.resolve_namespaces();
     ctx.namespace_start_idx = ctx.doc.namespaces.tree_order.len();
+    ctx.xml_prefix_declared = false;
 
     let attributes = resolve_attributes(namespaces, ctx)?;
 
